@@ -264,7 +264,72 @@ func init() {
 	})
 }
 
+// commaOkDeref: a module lookup that returns (pointer, found) yields a nil pointer when found is false; every
+// dereference of the pointer (field access, load, call of one of its pointer-receiver methods) is reached only
+// on the found == true edge. No goroutine of the broker recovers from a nil dereference.
+func commaOkDeref(c *Ctx, rule string) {
+	nLook, nDeref := 0, 0
+	for _, fn := range c.ModFns {
+		if fnPkgPath(fn) != modPath {
+			continue
+		}
+		for _, ins := range instrs(fn) {
+			call, ok := ins.(*ssa.Call)
+			if !ok {
+				continue
+			}
+			callee := call.Common().StaticCallee()
+			if callee == nil || !inModule(callee) {
+				continue
+			}
+			tup, ok := call.Type().(*types.Tuple)
+			if !ok || tup.Len() != 2 {
+				continue
+			}
+			if _, isPtr := tup.At(0).Type().Underlying().(*types.Pointer); !isPtr {
+				continue
+			}
+			if b, isB := tup.At(1).Type().Underlying().(*types.Basic); !isB || b.Kind() != types.Bool {
+				continue
+			}
+			nLook++
+			okText := describe(call) + "#1"
+			for _, ref := range *call.Referrers() {
+				e0, isE := ref.(*ssa.Extract)
+				if !isE || e0.Index != 0 {
+					continue
+				}
+				for _, use := range *e0.Referrers() {
+					deref := false
+					switch u := use.(type) {
+					case *ssa.FieldAddr:
+						deref = u.X == ssa.Value(e0)
+					case *ssa.UnOp:
+						deref = u.Op == token.MUL && u.X == ssa.Value(e0)
+					case ssa.CallInstruction:
+						cc := u.Common()
+						if g := cc.StaticCallee(); g != nil && g.Signature.Recv() != nil && len(cc.Args) > 0 && cc.Args[0] == ssa.Value(e0) {
+							if _, isP := g.Signature.Recv().Type().Underlying().(*types.Pointer); isP {
+								deref = true
+							}
+						}
+					}
+					if !deref {
+						continue
+					}
+					nDeref++
+					c.ob(rule, fmt.Sprintf("%s: %s is dereferenced only where the lookup reported found (%s)", fname(fn), describe(e0), guardKey(use)), c.pos(use.Pos()),
+						dominatedByFact(use, textEq(okText), true), "the lookup returns a nil pointer when nothing is found; the dereference panics and no goroutine of the broker recovers")
+				}
+			}
+		}
+	}
+	c.floor(rule+" (pointer, found) lookups", nLook, 5)
+	c.floor(rule+" dereferences of looked-up pointers", nDeref, 8)
+}
+
 func runC28(c *Ctx) {
+	commaOkDeref(c, "C28.e found-before-deref")
 	root := c.fn("mqtt", "(*Server).attachClient")
 	if root == nil {
 		return
